@@ -6,6 +6,9 @@ from sim import selftest
 patch = sys.argv[1]
 tier = sys.argv[2] if len(sys.argv) > 2 else "quick"
 nruns = int(sys.argv[3]) if len(sys.argv) > 3 else None
+import os
+if len(sys.argv) > 4:
+    os.environ["SIM_ONLY"] = sys.argv[4]
 tree = selftest.scratch_tree(patch)
 try:
     code, out, err, dt = selftest.run_against(tree, tier=tier, nruns=nruns, stop=True)
